@@ -649,6 +649,12 @@ def parse_merchants(content: str, match_mode: str = 'first_match') -> MerchantEn
 # CSV Conversion (Backwards Compatibility)
 # =============================================================================
 
+def _quote_pattern(pattern: str) -> str:
+    """Write a regex pattern as a double-quoted string literal that the expression
+    parser reads back unchanged (backslashes and quotes escaped)."""
+    return '"' + pattern.replace('\\', '\\\\').replace('"', '\\"') + '"'
+
+
 def _modifier_to_expr(parsed_pattern) -> str:
     """Convert parsed CSV modifiers to expression string."""
     conditions = []
@@ -717,7 +723,7 @@ def csv_rule_to_merchant_rule(
     if pattern:
         # Escape any special characters in the pattern for the match expression
         # We use regex() function for the pattern
-        parts.append(f'regex("{pattern}")')
+        parts.append(f'regex({_quote_pattern(pattern)})')
 
     # Add modifier conditions
     modifier_expr = _modifier_to_expr(parsed_pattern)
@@ -820,7 +826,7 @@ def csv_to_merchants_content(csv_rules: List[Tuple]) -> str:
         parts = []
         if pattern:
             # Pattern is already properly escaped for regex use, write as-is
-            parts.append(f'regex("{pattern}")')
+            parts.append(f'regex({_quote_pattern(pattern)})')
 
         modifier_expr = _modifier_to_expr(parsed) if parsed else ""
         if modifier_expr and not modifier_expr.startswith("#"):
